@@ -13,8 +13,9 @@ EXTENDS Lifecycle, Json
 
 VARIABLES l, plen, stopTimeout,
           stopDue, startDue, verifyDue,   \* deadlines in ms, -1 = none
-          finalActive
-tvars == <<vars, l, plen, stopTimeout, stopDue, startDue, verifyDue, finalActive>>
+          finalActive,
+          vphase                          \* window of a Verify command opened at its call: none/called/seen/done
+tvars == <<vars, l, plen, stopTimeout, stopDue, startDue, verifyDue, finalActive, vphase>>
 
 Trace == ndJsonDeserialize("trace.ndjson")
 Ev == Trace[l]
@@ -32,7 +33,7 @@ InitFrom(e) ==
     /\ plen = e.plen /\ stopTimeout = e.stopTimeoutMs
     /\ status = "Stopped" /\ have = {} /\ bfKnown = FALSE /\ good = {} /\ stale = FALSE /\ filesExist = "none"
     /\ peers = 0 /\ downloads = 0 /\ files = 0 /\ doVerify = FALSE /\ wantRun = FALSE /\ ncmd = 0
-    /\ stopDue = -1 /\ startDue = -1 /\ verifyDue = -1 /\ finalActive = FALSE
+    /\ stopDue = -1 /\ startDue = -1 /\ verifyDue = -1 /\ finalActive = FALSE /\ vphase = "none"
 
 TraceInit == l = 2 /\ Trace[1].ev = "init" /\ InitFrom(Trace[1]) /\ TLCSet(1, 1)
 
@@ -41,7 +42,7 @@ TrReset ==
     /\ plen' = Ev.plen /\ stopTimeout' = Ev.stopTimeoutMs
     /\ status' = "Stopped" /\ have' = {} /\ bfKnown' = FALSE /\ good' = {} /\ stale' = FALSE /\ filesExist' = "none"
     /\ peers' = 0 /\ downloads' = 0 /\ files' = 0 /\ doVerify' = FALSE /\ wantRun' = FALSE /\ ncmd' = 0
-    /\ stopDue' = -1 /\ startDue' = -1 /\ verifyDue' = -1 /\ finalActive' = FALSE
+    /\ stopDue' = -1 /\ startDue' = -1 /\ verifyDue' = -1 /\ finalActive' = FALSE /\ vphase' = "none"
     /\ l' = l + 1
 
 KeepCfg == UNCHANGED <<plen, stopTimeout, bfKnown, filesExist, wantRun, ncmd>>
@@ -57,15 +58,22 @@ ClearExpired(t) ==
     /\ startDue' = IF startDue # -1 /\ t > startDue THEN -1 ELSE startDue
     /\ verifyDue' = IF verifyDue # -1 /\ t > verifyDue THEN -1 ELSE verifyDue
 
-TrCall == Ev.ev = "call" /\ l' = l + 1 /\ UNCHANGED <<vars, plen, stopTimeout, stopDue, startDue, verifyDue, finalActive>>
+\* The "ret" line of a command is written by the calling goroutine and may appear in the trace AFTER loop snapshots that already
+\* show the command's effect (seen under load: a whole verification finished between Verify()'s return and the "ret" line). For
+\* Verify the window therefore opens at the call: vphase = "called" -> "seen" (a snapshot with doVerify) -> "done" (Stopped again).
+TrCall ==
+    /\ Ev.ev = "call" /\ l' = l + 1
+    /\ vphase' = IF Ev.op = "verify" THEN "called" ELSE IF Ev.op \in {"start", "stop"} THEN "none" ELSE vphase
+    /\ UNCHANGED <<vars, plen, stopTimeout, stopDue, startDue, verifyDue, finalActive>>
 
 \* @obligation C04.L5  every command returns and takes effect
 TrRet ==
     /\ Ev.ev = "ret"
     /\ CASE Ev.op = "stop"   -> /\ stopDue' = Ev.t + stopTimeout + StopSlack /\ startDue' = -1 /\ verifyDue' = -1
          [] Ev.op = "start"  -> /\ startDue' = (IF verifyDue = -1 THEN Ev.t + StartSlack ELSE -1) /\ stopDue' = -1 /\ UNCHANGED verifyDue
-         [] Ev.op = "verify" -> /\ verifyDue' = Ev.t + VerifySlack /\ stopDue' = -1 /\ startDue' = -1
+         [] Ev.op = "verify" -> /\ verifyDue' = (IF vphase = "done" THEN -1 ELSE Ev.t + VerifySlack) /\ stopDue' = -1 /\ startDue' = -1
          [] OTHER            -> UNCHANGED <<stopDue, startDue, verifyDue>>
+    /\ vphase' = IF Ev.op = "verify" THEN "none" ELSE vphase
     /\ l' = l + 1 /\ UNCHANGED <<vars, plen, stopTimeout, finalActive>>
 
 \* @obligation C04.L2 / C04.L3 / C04.L5 on every loop snapshot
@@ -74,8 +82,9 @@ TrSnap ==
     /\ status' = Ev.status /\ have' = SetOf(Ev.have) /\ peers' = Ev.peers /\ downloads' = Ev.downloads
     /\ files' = Ev.files /\ doVerify' = Ev.doVerify
     /\ LET run == Ev.status \notin {"Stopped", "Stopping"}
-           vfin == verifyDue # -1 /\ Ev.status = "Stopped" /\ ~Ev.doVerify        \* verification request completed
-           vbad == verifyDue # -1 /\ (Ev.status \in {"Downloading", "Seeding"} \/ Ev.peers > 0 \/ Ev.downloads > 0)
+           vopen == verifyDue # -1 \/ vphase = "seen"
+           vfin == vopen /\ Ev.status = "Stopped" /\ ~Ev.doVerify                  \* verification request completed
+           vbad == vopen /\ (Ev.status \in {"Downloading", "Seeding"} \/ Ev.peers > 0 \/ Ev.downloads > 0)
            errStop == Ev.lastErr # ""
        IN /\ Note(IF ~L2a(TPiece, Ev.status, SetOf(Ev.have)) THEN "C04.L2.seeding"
                   ELSE IF ~L2b(Ev.status, SetOf(Ev.have), good, stale) THEN "C04.L2.have"
@@ -90,20 +99,22 @@ TrSnap ==
           /\ startDue' = IF run \/ errStop \/ (startDue # -1 /\ Ev.t > startDue) THEN -1 ELSE startDue
           /\ verifyDue' = IF vfin \/ vbad \/ (verifyDue # -1 /\ Ev.t > verifyDue) THEN -1 ELSE verifyDue
           /\ stale' = IF vfin THEN FALSE ELSE stale
+          /\ vphase' = IF vphase \in {"called", "seen"} /\ (vfin \/ vbad) THEN "done"
+                        ELSE IF vphase = "called" /\ Ev.doVerify THEN "seen" ELSE vphase
     /\ l' = l + 1 /\ KeepCfg /\ UNCHANGED <<good, finalActive>>
 
 TrWrite ==                                        \* storage truth after a piece write
     /\ Ev.ev = "w"
     /\ good' = IF Ev.p \in TPiece THEN (IF Ev.pgood THEN good \cup {Ev.p} ELSE good \ {Ev.p}) ELSE good
     /\ l' = l + 1 /\ KeepCfg
-    /\ UNCHANGED <<status, have, stale, peers, downloads, files, doVerify, stopDue, startDue, verifyDue, finalActive>>
+    /\ UNCHANGED <<status, have, stale, peers, downloads, files, doVerify, stopDue, startDue, verifyDue, finalActive, vphase>>
 
 TrMut ==                                          \* files changed by the harness while Stopped
     /\ Ev.ev = "mut"
     /\ good' = SetOf(Ev.good)
     /\ stale' = (stale \/ Ev.kind \in {"corrupt", "truncate"})
     /\ l' = l + 1 /\ KeepCfg
-    /\ UNCHANGED <<status, have, peers, downloads, files, doVerify, stopDue, startDue, verifyDue, finalActive>>
+    /\ UNCHANGED <<status, have, peers, downloads, files, doVerify, stopDue, startDue, verifyDue, finalActive, vphase>>
 
 \* @obligation C04.L3  Stopped: no open data files (handles counted by the storage provider)
 TrStoppedObs ==
@@ -111,7 +122,7 @@ TrStoppedObs ==
     /\ Note(IF Ev.handles # 0 THEN "C04.L3.handles" ELSE "")
     /\ good' = SetOf(Ev.good)
     /\ l' = l + 1 /\ KeepCfg
-    /\ UNCHANGED <<status, have, stale, peers, downloads, files, doVerify, stopDue, startDue, verifyDue, finalActive>>
+    /\ UNCHANGED <<status, have, stale, peers, downloads, files, doVerify, stopDue, startDue, verifyDue, finalActive, vphase>>
 
 \* @obligation C04.L4  completed bytes consistent with the pieces held
 TrStats ==
@@ -121,7 +132,7 @@ TrStats ==
        IN Note(IF Ev.completed + Ev.incomplete # Ev.btotal THEN "C04.L4.bytes"
                ELSE IF Ev.completed \notin {Ev.have * pl, (Ev.have - 1) * pl + last} /\ ~(Ev.have = 0 /\ Ev.completed = 0) THEN "C04.L4.completed"
                ELSE "")
-    /\ l' = l + 1 /\ UNCHANGED <<vars, plen, stopTimeout, stopDue, startDue, verifyDue, finalActive>>
+    /\ l' = l + 1 /\ UNCHANGED <<vars, plen, stopTimeout, stopDue, startDue, verifyDue, finalActive, vphase>>
 
 \* @obligation C04.L6  starting again with a reachable seed converges to complete, correct files
 TrFinal ==
@@ -131,13 +142,13 @@ TrFinal ==
        ELSE /\ Note(IF finalActive /\ ~(Ev.ok /\ Ev.filesOK) THEN "C04.L6" ELSE "")
             /\ finalActive' = FALSE /\ good' = SetOf(Ev.good) /\ UNCHANGED <<stopDue, startDue, verifyDue>>
     /\ l' = l + 1 /\ KeepCfg
-    /\ UNCHANGED <<status, have, stale, peers, downloads, files, doVerify>>
+    /\ UNCHANGED <<status, have, stale, peers, downloads, files, doVerify, vphase>>
 
 \* @obligation C04.L1  no crash, no hang
 TrProc ==
     /\ Ev.ev = "proc"
     /\ Note(IF Ev.what = "crash" THEN "C04.L1.crash" ELSE IF Ev.what = "hang" THEN "C04.L1.hang" ELSE "")
-    /\ l' = l + 1 /\ UNCHANGED <<vars, plen, stopTimeout, stopDue, startDue, verifyDue, finalActive>>
+    /\ l' = l + 1 /\ UNCHANGED <<vars, plen, stopTimeout, stopDue, startDue, verifyDue, finalActive, vphase>>
 
 TraceNext ==
     /\ l <= Len(Trace)
